@@ -121,6 +121,17 @@ def run(ctx):
             cases.append({"id": "reuse%d" % i, "schema": schema, "dir": d, "kind": "reuse", "_off": len(pre),
                           "ops": pre + [{"op": "create", "schema": schema, "dir": d}, {"op": "verify"}, {"op": "db_query", "q": "version_name"},
                                         {"op": "release_all"}, {"op": "load", "dir": d}, {"op": "verify"}, {"op": "release_all"}]})
+            if not is_v2(schema):
+                # what a "reset by deleting m.db" leaves: the p.db of a library of another 1.x version.  Creating there may be
+                # refused; if it succeeds the result must be a library like any other
+                d = os.path.join(root, "leftover%d" % i)
+                os.makedirs(d)
+                other = "1.15.0" if schema != "1.15.0" else "1.6.0"
+                pre = [{"op": "create", "schema": other, "dir": d}, {"op": "create_track", "as": "t0", "snap": {"relative_path": "612e6d7033"}},
+                       {"op": "release_all"}, {"op": "remove_file", "path": os.path.join(d, "m.db")}]
+                cases.append({"id": "leftover%d" % i, "schema": schema, "dir": d, "kind": "leftover", "_off": len(pre), "_lenient_prelude": True,
+                              "ops": pre + [{"op": "create", "schema": schema, "dir": d}, {"op": "verify"}, {"op": "db_query", "q": "version_name"},
+                                            {"op": "release_all"}, {"op": "load", "dir": d}, {"op": "verify"}, {"op": "release_all"}]})
             cases.append({"id": "temp%d" % i, "schema": schema, "kind": "temp",
                           "ops": [{"op": "create_temporary", "schema": schema}, {"op": "verify"}, {"op": "db_query", "q": "version_name"},
                                   {"op": "rawdump", "checks": False},
@@ -139,7 +150,18 @@ def run(ctx):
                 continue
             ev = r.events
             off = c.get("_off", 0)
-            if off:
+            if off and c.get("_lenient_prelude"):
+                if any("exc" in e for e in ev[:off]) or ev[off - 1].get("ret") is not True:
+                    ctx.fail_harness("leftover-file set-up failed")
+                    return
+                ev = ev[off:]
+                c = dict(c, ops=c["ops"][off:])
+                if "exc" in ev[0]:
+                    ctx.bump("creation_refused_next_to_leftover_files")
+                    ctx.count()
+                    continue
+                ctx.bump("creation_accepted_next_to_leftover_files")
+            elif off:
                 if any("exc" in e for e in ev[:off]) or ev[off - 1].get("ret") is not False:
                     ctx.violation(f"reused-directory-prelude {schema}", f"{schema}: creating, loading and deleting a library of the other generation "
                                   f"in the same place did not go as expected: {[e.get('ret', e.get('exc', {}).get('type')) for e in ev[:off]]}", wit)
@@ -160,7 +182,7 @@ def run(ctx):
             want_ver = schema_tuple(schema)
             if c["kind"] == "col" and (ev[0]["ret"].get("created") is not True):
                 ctx.violation(f"create-or-load-did-not-create {schema}", f"{schema}: create_or_load_database on an empty directory reports {ev[0]['ret']}", wit)
-            if c["kind"] in ("disk", "col", "reuse"):
+            if c["kind"] in ("disk", "col", "reuse", "leftover"):
                 if ev[4]["ret"]["loaded_schema"] != schema or ev[4]["ret"]["version_name"] != schema:
                     ctx.violation(f"not-recognised-on-load {schema}", f"{schema}: loading the created library reports {ev[4]['ret']}", wit)
                 files = {"m": os.path.join(c["dir"], "Database2", "m.db") if v2 else os.path.join(c["dir"], "m.db")}
@@ -175,7 +197,7 @@ def run(ctx):
                         ver = SN.version_of(con)
                         if ver != want_ver:
                             ctx.violation(f"stored-version-wrong {schema} {which}.db", f"{schema}: {which}.db stores version {ver}", wit)
-                        compare(ctx, schema, {"disk": "disk", "col": "create_or_load", "reuse": "reused directory"}[c["kind"]], which, SN.extract(con), refs, wit)
+                        compare(ctx, schema, {"disk": "disk", "col": "create_or_load", "reuse": "reused directory", "leftover": "next to a leftover p.db"}[c["kind"]], which, SN.extract(con), refs, wit)
                     finally:
                         con.close()
             else:
